@@ -75,7 +75,7 @@ def unit_closure(units):
     return order
 
 
-def run_verus(path, rlimit, seed, extra=None, timeout=300, multiple_errors=4):
+def run_verus(path, rlimit, seed, extra=None, timeout=900, multiple_errors=4):
     cmd = [VERUS, os.path.basename(path), '--error-format=json', '--output-json', '--time-expanded',
            '--rlimit', str(rlimit), '--multiple-errors', str(multiple_errors), '--triggers-mode', 'silent']
     if seed:
